@@ -71,7 +71,8 @@ pub fn check_shape(prefix: &[Inst], s: &Shape) -> (Vec<Viol>, &'static str) {
                     out.push(viol(format!("C02:parse:{}:count", name), format!("shape {}: {} instructions delivered for {}", s.id, col.insts.len(), prefix.len() + 1), json!({"kind": "bytes", "bytes": hex(&bytes), "shape": s.id})));
                 } else {
                     let got = col.insts.last().unwrap();
-                    if got != &dri {
+                    // compared field by field through the model (not through the subject's own PartialEq)
+                    if model::from_dr(got) != *m || got.class.opname != dri.class.opname {
                         let k = if got.class.opcode != dri.class.opcode {
                             "opcode".to_string()
                         } else if got.result_type != dri.result_type || got.result_id != dri.result_id {
@@ -93,6 +94,7 @@ pub fn run(tier: Tier) -> Run {
     let mut run = Run::new("C02", tier, "exploration");
     let mut work: Vec<(Vec<Inst>, Shape)> = universe::all_shapes(tier).into_iter().map(|s| (vec![], s)).collect();
     work.extend(universe::scale_shapes(tier).into_iter().map(|s| (vec![], s)));
+    work.extend(universe::pattern_shapes(tier).into_iter().map(|s| (vec![], s)));
     // typed literals under id relabellings and behind function boundaries (conforming ones only)
     work.extend(crate::checks::c03::context_variants().into_iter().filter(|(_, s)| !s.id.contains(":type14:")));
     let ctx = type_context();
